@@ -1044,7 +1044,8 @@ func FSRemove(name string) error {
 // fileWrite is the data-write seam of *os.File: it shares the write plan with FSWriteFile.
 func fileWrite(f *os.File, data []byte) (int, error) {
 	s := active()
-	if s == nil {
+	if s == nil || f == os.Stdout || f == os.Stderr {
+		// the standard streams are not part of the simulated disk: no event, no fault
 		return f.Write(data)
 	}
 	name := ""
@@ -1104,7 +1105,7 @@ func FileWriteString(f *os.File, str string) (int, error) { return fileWrite(f, 
 
 func fileMeta(f *os.File, what string, do func() error) error {
 	s := active()
-	if s == nil {
+	if s == nil || f == os.Stdout || f == os.Stderr || f == os.Stdin {
 		return do()
 	}
 	name := ""
